@@ -10,6 +10,8 @@ package main
 //   DIR/stats.json        measured input distribution
 
 import (
+	"runtime"
+	"runtime/debug"
 	"encoding/json"
 	"flag"
 	"fmt"
@@ -167,6 +169,9 @@ func main() {
 		err = valuesMain(*prop, *tier, *seed, *out, *replay)
 	case "bind":
 		err = bindMain(*prop, *tier, *seed, *out, *replay)
+	case "config":
+		debug.SetGCPercent(-1)
+		err = configMain(*prop, *tier, *seed, *out, *replay)
 	default:
 		err = fmt.Errorf("unknown family %q", family)
 	}
@@ -174,4 +179,14 @@ func main() {
 		fmt.Fprintln(os.Stderr, "harness error:", err)
 		os.Exit(2)
 	}
+}
+
+func runtimeGC() { runtime.GC() }
+
+func noteProgressAny(out string, i int, sc any, tags []string) {
+	if out == "" {
+		return
+	}
+	b, _ := json.Marshal(map[string]any{"id": i, "scen": sc, "tags": tags})
+	os.WriteFile(filepath.Join(out, "progress.json"), b, 0o644)
 }
